@@ -207,6 +207,11 @@ def check(ctx):
         ok = any(isinstance(n, ast.If) and norm(n.test) == f"{p} is None" for n in walk_no_nested(dv.node))
         ctx.check(ok, "C17.R7", f"{dv.qualname}:{p}", dv.node.body[0], f"`{p}` is not defaulted under `if {p} is None`", dv, dv.node, detail=f"if {p} is None")
 
+    # ---------------- R9 scoped builder state
+    from .common_scoped import scoped_state_rule
+    ctx.rule("C17.R9", "schema builders change traversal state (_ignore_first_ref) only inside `with context_setter(self)` or as a one-shot latch", floor=3)
+    scoped_state_rule(ctx, "C17.R9", lambda q: q.startswith("apischema.json_schema"))
+
     # ---------------- R8
     ctx.rule("C17.R8", "both refs extractors and both schema builders implement every hook they can dispatch to", floor=60)
     for q in (f"{REFS}.DeserializationRefsExtractor", f"{REFS}.SerializationRefsExtractor", f"{SCH}.DeserializationSchemaBuilder", f"{SCH}.SerializationSchemaBuilder"):
@@ -230,4 +235,5 @@ def mutants(mb):
     mb.add_text("uri-2019", V, '"http://json-schema.org/draft/2019-09/schema#"', '"http://json-schema.org/draft/2020-12/schema#"', "C17.R6", "DRAFT_2019_09")
     mb.add_text("all-refs-or", S, "    if all_refs is None:\n        all_refs = version.all_refs\n    return version, ref_factory, all_refs", "    return version, ref_factory, all_refs or version.all_refs", "C17.R7", "all_refs")
     mb.add_text("extractor-hook-missing", R, "    def tuple(self, types: Sequence[AnyType]):\n        for cls in types:\n            self.visit(cls)\n", "", "C17.R8", "tuple")
+    mb.add_text("ignore-first-ref-leaks", S, "        with context_setter(self):\n            self._ignore_first_ref = True\n            key = self.visit(key_type)", "        self._ignore_first_ref = True\n        key = self.visit(key_type)", "C17.R9", "mapping")
     mb.add_text("neg-rename-ref-var", R, "                ref = annotation.to_type_name(tp).json_schema\n                if not isinstance(ref, str):\n                    continue", "                ref = annotation.to_type_name(tp).json_schema\n                if not isinstance(ref, str):\n                    continue\n                pass", negative=True)
